@@ -109,10 +109,16 @@ def random_layout(g) -> dict:
 
 def line_of_item(case: dict, status, ident: str):
     """1-based line number of the instruction with the given id, in the file that holds it."""
-    for text in render_files(case, status).values():
+    loc = location_of_item(case, status, ident)
+    return loc[1] if loc else None
+
+
+def location_of_item(case: dict, status, ident: str):
+    """(file name, 1-based line number) of the instruction with the given id, or None."""
+    for name, text in sorted(render_files(case, status).items()):
         n = _line_of_item_in(text, case, ident)
         if n is not None:
-            return n
+            return name, n
     return None
 
 
